@@ -39,6 +39,7 @@ inductive Err where
   | conflict      -- ConflictError
   | undoError     -- UndoError / MultipleUndoErrors
   | txnError      -- StorageTransactionError
+  | readConflict  -- ReadConflictError (checkCurrentSerialInTransaction)
   | blocked       -- the call would block on the commit lock
   | unsupported   -- AttributeError / TypeError / not modelled
 deriving Repr, DecidableEq
@@ -354,6 +355,7 @@ inductive Op where
   | finish (x : Nat)
   | abort (x : Nat)
   | undo (x : Nat) (u : Tid)
+  | checkCurrent (x : Nat) (o : Oid) (serial : Tid)  -- checkCurrentSerialInTransaction (readCurrent)
   | pack (P : Tid)
   | newOid (draws : List Oid)
   | push (firstDraw : Oid)
@@ -376,6 +378,12 @@ def beginTid (last : Tid) (tid : Option Tid) (now : Tid) : Tid :=
   match tid with
   | some t => t
   | none => laterThan now last
+
+/-- `committed_tid = self.getTid(oid); if committed_tid != serial: raise ReadConflictError` -/
+def checkCurrentOut (gt : Except Err Tid) (serial : Tid) : Out :=
+  match gt with
+  | .error e => .err e
+  | .ok t => if t = serial then .ok else .err .readConflict
 
 def newDemo (b : Store) (canUndo temp : Bool) (firstDraw : Oid) : Store :=
   .demo b (Layer.empty canUndo) ⟨[], [], firstDraw, none, temp⟩
@@ -400,6 +408,8 @@ def step : Store → Op → Store × Out
     (match l.undo u with
      | .ok l' => (.leaf l', .ok)
      | .error e => (.leaf l, .err e))
+  | .leaf l, .checkCurrent _ o ser =>
+    (.leaf l, if l.staged.isNone then .err .txnError else checkCurrentOut ((Store.leaf l).getTid o) ser)
   | .leaf l, .pack P => (.leaf (l.pack P), .ok)
   | .leaf l, .newOid _ => (.leaf l, .err .unsupported)       -- counters: see ZodbModel/Oid.lean
   | .leaf l, .pop => (.leaf l, .err .unsupported)
@@ -441,6 +451,10 @@ def step : Store → Op → Store × Out
       match c.undo u with
       | .ok c' => (.demo b c' ds, .ok)
       | .error e => (.demo b c ds, .err e)
+  | .demo b c ds, .checkCurrent x o ser =>
+    -- `BaseStorage.checkCurrentSerialInTransaction`: the demo storage's OWN getTid, i.e. across the layers
+    (.demo b c ds, if ds.txn ≠ some x then .err .txnError
+                   else checkCurrentOut ((Store.demo b c ds).getTid o) ser)
   | .demo b c ds, .pack P =>
     if ds.tempChanges then (.demo b c ds, .err .unsupported)  -- gc pack of temporary changes: not modelled
     else (.demo b (c.pack P) ds, .ok)
